@@ -438,11 +438,13 @@ func decodeCompositParams(name string, value string, pattern string, names []str
 		vright := strings.Index(value, toskip)
 		if vright >= 0 {
 			values = append(values, value[:vright])
+			value = value[vright+len(toskip):]
 		} else {
+			// the separator is missing from the request segment: nothing is left to decode
 			values = append(values, "")
 			value = ""
 		}
-		return decodeCompositParams(pattern[pleft+1:pright], value[vright+len(toskip):], pattern[pright+1:], names, values)
+		return decodeCompositParams(pattern[pleft+1:pright], value, pattern[pright+1:], names, values)
 	}
 	return names, values
 }
